@@ -74,7 +74,7 @@ def gen_case(rng):
         names += rng.sample(TRICKY, rng.randint(1, 2))
         tags.add("names:python-builtin-or-dict-attribute")
     elif k < 0.18:
-        coll = rng.choice(["dotted-vs-double-underscore", "builtin-suffix"])
+        coll = rng.choice(["dotted-vs-double-underscore", "builtin-suffix", "parameter-named-t"])
         tags.add("ext:name-collision:" + coll)
     elif k < 0.22:
         tags.add("ext:discrete-variable")
@@ -127,6 +127,12 @@ def gen_case(rng):
         prefixes["c1__x"] = []
         allnames.append("c1__x")
         sub = True
+    if coll == "parameter-named-t":
+        # the runtime's symbol for time is sympy.symbols("t"), and so is a parameter or constant named t
+        pf = [rng.choice(["parameter", "constant"])]
+        decls.append("  %s Real t = %s;" % (pf[0], round(rng.uniform(0.5, 4), 2)))
+        prefixes["t"] = pf
+        allnames.append("t")
     if coll == "builtin-suffix":
         for n in ("copy", "copy_"):
             if n not in allnames:
@@ -267,6 +273,10 @@ def check(ctx, text, eqs, ref, allnames, tags, rng):
         ctx.violation("C24:%s:variables-share-a-python-symbol" % feat,
                       "%d Modelica variables, %d distinct sympy symbols in x,v,p,c,u (%d entries)\n%s" % (
                           len(allnames), len(set(allsyms)), len(allsyms), text), case)
+        return
+    if any(s_ == inst.t for s_ in allsyms):
+        ctx.violation("C24:%s:variable-shares-the-symbol-of-time" % feat,
+                      "a variable of the model is the same sympy symbol as time (self.t)\n%s" % text, case)
         return
     if collide:
         ctx.discard("case:names-equal-modulo-mangling:lists-and-equations-not-compared")
